@@ -510,7 +510,9 @@ func TestVerifC19ReservationRestart(t *testing.T) {
 				p.versions = append(p.versions, nv)
 			}
 			terminate := func(p *c19Pod) {
-				next(p, func(nv *corev1.Pod) { nv.Status.Phase = kit.Pick(r, []corev1.PodPhase{corev1.PodSucceeded, corev1.PodFailed}) })
+				next(p, func(nv *corev1.Pod) {
+					nv.Status.Phase = kit.Pick(r, []corev1.PodPhase{corev1.PodSucceeded, corev1.PodFailed})
+				})
 				p.state = c19Terminated
 				c.Op("api: terminate %s -> version %d", p.name, len(p.versions))
 				c.Count("terminated", 1)
